@@ -2,6 +2,8 @@ package checks
 
 import (
 	"fmt"
+	"os"
+	"strings"
 
 	"github.com/openfga/openfga/internal/verifh/core"
 	"github.com/openfga/openfga/internal/verifh/e2"
@@ -13,6 +15,15 @@ func init() { Registry["C01"] = C01 }
 
 func c01Models(o *core.Options) []*ref.Model {
 	all := e2.ValidModels(ref.Family(ref.FamilyOpts{Conds: true, Deep: o.Thorough()}))
+	if f := os.Getenv("VERIF_MODEL_FILTER"); f != "" { // development aid: restrict to models whose text contains f
+		var sel []*ref.Model
+		for _, m := range all {
+			if strings.Contains(m.String(), f) {
+				sel = append(sel, m)
+			}
+		}
+		all = sel
+	}
 	if o.Thorough() {
 		return ref.Representatives(all, 4, o.Seed)
 	}
@@ -80,6 +91,28 @@ func C01(o *core.Options) int {
 		}
 		run(env, w)
 	})
+	// three-tuple chains on a reduced universe (1 user, 1 group, 2 docs): the tuple-to-userset classes
+	// with mixed parent types and the twin-branch classes in quick, every class in thorough
+	var k3 []*ref.Model
+	for _, m := range models {
+		if o.Thorough() || m.IsTwin() || strings.Contains(m.Signature(), "|r1=") {
+			k3 = append(k3, m)
+		}
+	}
+	u3 := ref.Universe{"user": {"user:a"}, "group": {"group:1"}, "doc": {"doc:1", "doc:2"}}
+	nodes3 := e2.RequestNodes(u3)
+	o3 := opts
+	o3.K, o3.U = 3, u3
+	save := nodes
+	nodes = nodes3 // the sweeps run one after the other; run() reads nodes
+	e2.Sweep(r, k3, o3, func(env *e2.Env, w *ref.World) {
+		if len(w.Tuples) != 3 {
+			return
+		}
+		r.Count("worlds_with_three_tuples", 1)
+		run(env, w)
+	})
+	nodes = save
 	// leftover tuples: one tuple invalid for M, plus |T|<=1
 	lo := opts
 	lo.K = 1
